@@ -1514,13 +1514,9 @@ impl TestTextSelection for TextSelectionSet {
                 .unwrap()
                 .test(operator, reftextsel, resource),
             TextSelectionOperator::SameRange { negate: false, .. } => {
-                self.leftmost()
-                    .unwrap()
-                    .test(operator, reftextsel, resource)
-                    && self
-                        .rightmost()
-                        .unwrap()
-                        .test(operator, reftextsel, resource)
+                //the leftmost item of this set begins where the reference begins, the rightmost ends where it ends
+                self.leftmost().unwrap().begin() == reftextsel.begin()
+                    && self.rightmost().unwrap().end() == reftextsel.end()
             }
 
             //negations
@@ -1675,13 +1671,12 @@ impl TestTextSelection for TextSelectionSet {
                 .unwrap()
                 .test_set(operator, refset, resource),
             TextSelectionOperator::SameRange { negate: false, .. } => {
-                self.leftmost()
-                    .unwrap()
-                    .test_set(operator, refset, resource)
-                    && self
-                        .rightmost()
-                        .unwrap()
-                        .test_set(operator, refset, resource)
+                if refset.is_empty() {
+                    return false;
+                }
+                //the leftmost item of this set begins where the leftmost of the other begins, the rightmost ends where the rightmost of the other ends
+                self.leftmost().unwrap().begin() == refset.leftmost().unwrap().begin()
+                    && self.rightmost().unwrap().end() == refset.rightmost().unwrap().end()
             }
 
             //negations
